@@ -159,6 +159,23 @@ impl SimQueue {
         }
     }
 
+    /// Remove and return a queued BlockingBegin event of the given side that
+    /// is due at or before the given time, if any.
+    pub fn pop_blocking_begin(&mut self, is_client: bool, due: Instant) -> Option<SimEvent> {
+        let side = if is_client {
+            &mut self.client
+        } else {
+            &mut self.server
+        };
+        let mut events = std::mem::take(&mut side.internal).into_vec();
+        let found = events
+            .iter()
+            .position(|e| matches!(e.event, TriggerEvent::BlockingBegin { .. }) && e.time <= due)
+            .map(|pos| events.swap_remove(pos));
+        side.internal = events.into();
+        found
+    }
+
     pub fn peek_non_blocking(
         &self,
         bypassable: bool,
